@@ -83,6 +83,20 @@ def h_garbage(kbytes, mode):
     def body(ctx):
         priv, pub = keys(kbytes)
         blob = sym_bytes("blob", kbytes)
+        if isinstance(mode, int):
+            # the plaintext the RSA layer hands back is an input of the instance: the symbolic run injects it through the stub, the
+            # native replay really encrypts it with the matching public key (so the counterexample replays on the real primitive)
+            gpt = sym_bytes("garbage_pt", mode)
+            if mode >= 4:
+                m = m_int_from_bytes(SymBytes(gpt.cells[:4]), "big")
+                if is_native():
+                    if m == 0xBEEF:
+                        raise PathAbort()
+                else:
+                    ctx.assume(compare("!=", m, 0xBEEF))
+            if is_native():
+                from Crypto.Cipher import PKCS1_v1_5
+                blob = SymBytes(list(PKCS1_v1_5.new(pub).encrypt(V.to_native(gpt))))
         if not is_native():
             env = MC.new_env()
             if mode == "sentinel":
@@ -93,14 +107,9 @@ def h_garbage(kbytes, mode):
                 env.rsa_other = other
             else:
                 def other(ct, sentinel):
-                    pt = sym_bytes("garbage_pt", mode)
-                    if mode >= 4:
-                        # anything but a well-formed metadata record: the magic is not 0xBEEF
-                        m = m_int_from_bytes(SymBytes(pt.cells[:4]), "big")
-                        ctx.assume(compare("!=", m, 0xBEEF))
-                    return pt
+                    return gpt  # anything but a well-formed metadata record: the magic is not 0xBEEF (assumed above)
                 env.rsa_other = other
-        kind, r = outcome(c2.decrypt_metadata, blob, priv)
+        kind, r = outcome(c2.decrypt_metadata, V.unwrap(blob) if not is_native() else V.to_native(blob), priv)
         ctx.prove(kind == "exc" and isinstance(r, ValueError),
                   "a blob that does not decrypt to 0xBEEF metadata is rejected with ValueError (got %s %s)" % (kind, type(r).__name__))
     return body
